@@ -40,10 +40,19 @@ Definition ikeys_eqb (a b : ikeys) : bool :=
   Nat.eqb (length a) (length b) &&
   forallb (fun p => (fst (fst p) =? fst (snd p)) && (snd (fst p) =? snd (snd p))) (combine a b).
 
+(* operations that run inside another one: subscriber.Manager.TerminateSession calls the allocator's
+   ReleaseIPv4 between its two critical sections; whatever the callback does to the manager lands there *)
+Inductive mop :=
+| MCreate (id mac : N)
+| MAssign (id ip : N)
+| MTerminate (id : N)
+| MProbe (i k : N).        (* GetSessionByMAC (i = 0) / GetSessionByIP (i = 1) *)
+
 Inductive iop :=
 | ICreate (id : N) (ks : ikeys)
 | IUpdate (id : N) (ks : ikeys)
-| IDelete (id : N).
+| IDelete (id : N)
+| IDeleteMid (id : N) (mid : list mop).   (* kind 4 only: TerminateSession with a scripted release callback *)
 
 Definition i_with (st : ist) (p : amap ikeys) (x : amap (amap N)) : ist :=
   {| i_kind := i_kind st; i_prim := p; i_idx := x; i_ids := i_ids st; i_probe := i_probe st |}.
@@ -70,7 +79,7 @@ Fixpoint i_snaps (st : ist) (i : N) (pr : list (list N)) : list snap :=
   end.
 
 Definition i_out (st : ist) (r : ret) (mk : list N) : ist * obs * list N :=
-  (st, {| o_ret := r; o_snaps := i_snaps st 0 (i_probe st) |}, mk).
+  (st, {| o_ret := r; o_snaps := i_snaps st 0 (i_probe st); o_mid := [] |}, mk).
 
 (* an index entry of [ks] that currently belongs to another entity *)
 Definition clobbers (st : ist) (id : N) (ks : ikeys) : bool :=
@@ -144,4 +153,59 @@ Definition i_step (st : ist) (o : iop) : ist * obs * list N :=
       | None => i_out st (if kind =? 5 then RNone else RErr EOther) []
       | Some old => i_out (i_with st (adel (i_prim st) id) (del_keys (i_idx st) old)) RNone []
       end
+  | IDeleteMid _ _ => i_out st (RErr EOther) []      (* handled by i_stepm *)
+  end.
+
+(* ---- TerminateSession as its two critical sections with the release callback in between ----
+   section 1: look the session up, refuse if it is already terminating, mark it terminating;
+   callback : only when the session has an IPv4 address; the scripted operations run on the manager;
+   section 2: delete byMAC[session.MAC], byIP[session.IPv4] (fields read from the session object NOW,
+              whoever the entries belong to), delete the session.
+   The accumulator carries the fields of the session object ([shadow]: they follow the stored record
+   while it is stored) and whether it is still marked terminating (AssignAddress overwrites the state). *)
+Definition i_lookup (st : ist) (i k : N) : ret :=
+  match get2 (i_idx st) i k with
+  | Some id => if amem (i_prim st) id then RKey id else RKey dangling
+  | None => RNone
+  end.
+
+Record macc := { m_st : ist; m_rets : list ret; m_mk : list N; m_shadow : ikeys; m_term : bool }.
+
+Definition i_mid1 (tid : N) (a : macc) (m : mop) : macc :=
+  let via (o : iop) (term' : bool) :=
+    let '(st', ob, mk') := i_step (m_st a) o in
+    {| m_st := st'; m_rets := m_rets a ++ [o_ret ob]; m_mk := m_mk a ++ mk';
+       m_shadow := match aget (i_prim st') tid with Some ks => ks | None => m_shadow a end;
+       m_term := term' |} in
+  match m with
+  | MCreate id mac => via (ICreate id [(0, mac)]) (m_term a)
+  | MAssign id ip =>
+      via (IUpdate id [(1, ip)]) (if (id =? tid) && amem (i_prim (m_st a)) id then false else m_term a)
+  | MTerminate id =>
+      if (id =? tid) && m_term a && amem (i_prim (m_st a)) id
+      then {| m_st := m_st a; m_rets := m_rets a ++ [RErr EOther]; m_mk := m_mk a;
+              m_shadow := m_shadow a; m_term := m_term a |}
+      else via (IDelete id) (m_term a)
+  | MProbe i k => {| m_st := m_st a; m_rets := m_rets a ++ [i_lookup (m_st a) i k]; m_mk := m_mk a;
+                     m_shadow := m_shadow a; m_term := m_term a |}
+  end.
+
+Definition i_stepm (st : ist) (o : iop) : ist * obs * list N :=
+  match o with
+  | IDeleteMid id mid =>
+      if negb (i_kind st =? 4) then i_out st (RErr EOther) [] else
+      match aget (i_prim st) id with
+      | None => i_out st (RErr EOther) []
+      | Some old =>
+          let a0 := {| m_st := st; m_rets := []; m_mk := []; m_shadow := old; m_term := true |} in
+          let a := match key_at old 1 with
+                   | Some _ => fold_left (i_mid1 id) mid a0
+                   | None => a0 end in
+          let st1 := m_st a in
+          (* ghost marker 2024: section 2 deletes an index entry that names another session *)
+          let mk := if clobbers st1 id (m_shadow a) then [2024] else [] in
+          let st2 := i_with st1 (adel (i_prim st1) id) (del_keys (i_idx st1) (m_shadow a)) in
+          (st2, {| o_ret := RNone; o_snaps := i_snaps st2 0 (i_probe st2); o_mid := m_rets a |}, m_mk a ++ mk)
+      end
+  | _ => i_step st o
   end.
